@@ -22,6 +22,11 @@ func VerifHarness_C08_JPEG_Arbitrary() {
 
 // VerifHarness_C08_JPEG_Skeleton: well-formed skeletons (with symbolic fields).
 func VerifHarness_C08_JPEG_Skeleton() {
-	in, _ := VerifBuildJPEG(verifChoice(2))
+	var in []byte
+	if verifChoice(2) == 0 {
+		in, _ = VerifBuildJPEG(verifChoice(2))
+	} else { // with a two-chunk embedded profile, frame header first / between / last
+		in, _ = VerifBuildJPEGICC(2, verifChoice(3), verifChoice(2) == 1, []byte{1, 2}, []byte{2, 2})
+	}
 	verifSegmented(in)
 }
